@@ -1,5 +1,6 @@
 """C18 - HTML-based contrib renderers reproduce HtmlRenderer's output on documents that do not use their extension."""
 import re
+import zlib
 
 from .. import mt, tree, workloads
 
@@ -75,8 +76,15 @@ def check(ctx, text, opts, source, renderers=CONTRIB):
                 ctx.seen('nontrivial', [text, opts, rname])
 
 
+# the TOC renderer's own options decide what is *listed*, never what is rendered
+TOC_VARIANTS = [{}, {'depth': 1}, {'depth': 2, 'omit_title': False}, {'filter_conds': [lambda s: 'a' in s or 'e' in s]},
+                {'depth': 6, 'omit_title': False, 'filter_conds': [lambda s: True]}, {'filter_conds': [lambda s: len(s) % 2 == 0, lambda s: s[:1].isupper()]}]
+
+
 def render_twice(text, rname, opts):
     cls = mt.renderer_class(rname)
+    if rname == 'Toc':
+        opts = dict(opts, **TOC_VARIANTS[zlib.crc32(text.encode('utf-8', 'replace')) % len(TOC_VARIANTS)])
     try:
         with cls(**opts) as r:
             doc = mt.Document(text)
